@@ -22,7 +22,7 @@ ASSUMPTIONS = ["family A: virtual workspaces; family B: real temporary tree unde
                "eviction under cache pressure (2001 files) is exercised in the thorough tier only"]
 
 
-def queries_for(latest, names, stdlib):
+def queries_for(latest, names, stdlib, rnd=None):
     qs = []
     for q in sorted(latest):
         if not is_valid(latest[q]):
@@ -33,8 +33,10 @@ def queries_for(latest, names, stdlib):
             for n in names:
                 qs.append({"op": "closest", "path": q, "name": n})
             qs.append({"op": "available", "path": q})
-        if q.endswith("conftest.py") or "/helpers" in q or "/m1" in q or "/m2" in q:
+        if q.endswith("conftest.py") or "/helpers" in q or "/m1" in q or "/m2" in q or "/ring" in q:
             qs.append({"op": "imported", "path": q})
+    if rnd is not None:
+        rnd.shuffle(qs)
     return qs
 
 
@@ -50,6 +52,25 @@ def case_history(cid, rnd, stdlib):
         m2 = "import pytest\nfrom .m1 import *\n\n@pytest.fixture\ndef f2():\n    return 2\n"
         h["versions"] = [(root + "/m1.py", m1), (root + "/m2.py", m2)] + h["versions"]
         tags.append("mutual-imports")
+    if rnd.random() < 0.35:
+        # a ring of star-importing modules with side branches, entered from several packages
+        base = "/vk%d" % (cid % 5)
+        k = rnd.randint(3, 4)
+        ring = []
+        for j in range(k):
+            imports = "from ring%d import *\n" % ((j + 1) % k)
+            if rnd.random() < 0.5:
+                imports += "from side%d import *\n" % j
+                ring.append((base + "/side%d.py" % j, "import pytest\n\n@pytest.fixture\ndef s%d():\n    return 0\n" % j))
+            ring.append((base + "/ring%d.py" % j, "import pytest\n" + imports + "\n@pytest.fixture\ndef r%d():\n    return %d\n" % (j, j)))
+        entries = rnd.sample(range(k), 2)
+        for e_i, j in enumerate(entries):
+            ring.append((base + "/ent%d/conftest.py" % e_i, "import pytest\nfrom ring%d import *\n" % j))
+            ring.append((base + "/ent%d/test_e.py" % e_i, "def test_e(r0, r1, r2):\n    pass\n"))
+        rnd.shuffle(ring)
+        h["versions"] = ring + h["versions"]
+        h["names"] = h["names"] + ["r%d" % j for j in range(k)] + ["s%d" % j for j in range(k)]
+        tags.append("import-ring%d" % k)
     for i, (p, text) in enumerate(h["versions"]):
         op = {"op": "analyze", "path": p, "text": text}
         steps.append(op)
@@ -63,7 +84,7 @@ def case_history(cid, rnd, stdlib):
             tags.append("close")
             latest.pop(q)
         if i >= 2 and rnd.random() < 0.8:
-            qs = queries_for(latest, h["names"] + ["f1", "f2"], stdlib)
+            qs = queries_for(latest, h["names"] + ["f1", "f2"], stdlib, rnd)
             steps.append({"q": "cold", "replay": list(replay), "queries": qs})
             nq += len(qs)
     return {"id": cid, "steps": steps, "tags": tags, "queries": nq, "disk": {}}
